@@ -1,4 +1,5 @@
 """C09 — an FX market built from n-1 quotes is complete and arbitrage-free (partial correctness; liveness declined)."""
+import re
 import cel, paths, hir
 from cel import Poly, Sym, Rec, Tup, Alt, Arr, Unsupported, vkey
 from rules import gather
@@ -23,6 +24,50 @@ def idx_of(cur, ccy):
 
 def writes_of(a):
     return {(tuple(vkey(i) for i in w["idx"]), tuple(w["guards"]), tuple(l[1] for l in w["loops"])): w["val"] for w in a.writes}
+
+
+def init_builders(facts):
+    """The functions that build the fill-in's starting arrays: local functions called directly by create_fx_array that return an Array2 or a tuple of them
+    (today `create_initial_edges` and `create_initial_fx_array`; one merged builder, or differently named ones, are the same thing to the rules).
+    -> [(name, parameter roles, kinds of the returned arrays)], role in {"cur", "pairs", "rates", None}, kind in {"edges", "rates"}"""
+    r = facts.fn(FX + "create_fx_array")
+    out = []
+    if r is None:
+        return out
+    seen = []
+    for e in hir.walk(r["body"]):
+        if e.get("k") == "call" and e["f"].get("k") == "path":
+            d = e["f"].get("resolved") or e["f"].get("def") or ""
+            rr = facts.fn(d)
+            if rr is None or d in seen or d == FX + "mut_arrays_remaining_elements":
+                continue
+            ret = rr.get("ret") or ""
+            kinds = ["edges" if "i16" in part else "rates" for part in re.findall(r"ArrayBase<[^()]*?Dim<\[usize; 2\]>>", ret)]
+            if not kinds:
+                continue
+            seen.append(d)
+            roles = []
+            for t in rr["sig"]:
+                t_ = t.replace("&", "")
+                roles.append("cur" if "IndexSet<" in t_ and "Ccy" in t_ else "pairs" if "FXPair" in t_ else "rates" if t_.startswith("[") else None)
+            out.append((d, roles, kinds))
+    return out
+
+
+def eval_builders(facts, hk, rates_elem=None):
+    """{kind: Arr} — the starting arrays as built from (currencies, pairs, rates) symbolic parameters, whichever builder returns them."""
+    got = {}
+    for name, roles, kinds in init_builders(facts):
+        args = [{"cur": CUR, "pairs": PAIRS, "rates": RATES}.get(role, Sym("param", "arg%d" % i)) for i, role in enumerate(roles)]
+        v = cel.Ev(facts, hooks=hk).apply_fn(name, args, 0)
+        live = [x for _, x in paths.flatten(cel.strip_early(v)) if not (isinstance(x, Sym) and x.tag[:1] == ("diverges",))]       # a leading assert may abort
+        v = live[0] if len(live) == 1 else v
+        vals = list(v.items) if isinstance(v, Tup) else [v]
+        if len(vals) != len(kinds):
+            raise Unsupported("builder %s does not return %d array(s)" % (name, len(kinds)))
+        for kind, a in zip(kinds, vals):
+            got[kind] = a
+    return got
 
 
 def run(ck, facts, tier):
@@ -103,9 +148,18 @@ def run(ck, facts, tier):
                           "equal, outer indices equal to the target) — so every populated entry is a product of quotes along a path with inverses on reversed edges", floor=4)
     r4 = ck.rule("R09.4", "pairing: each matrix write pair is accompanied by the edge-matrix writes with the same indices (value 1); both start from the identity", floor=2)
     row, col = idx_of(CUR, fld(at(PAIRS), "0")), idx_of(CUR, fld(at(PAIRS), "1"))
+    zk = vkey(Sym("zip", vkey(PAIRS), vkey(RATES)))
+    unzip = lambda w_: {(k[0], k[1], tuple(vkey(PAIRS) if l == zk else l for l in k[2])): v for k, v in w_.items()}
+    built = {}
     try:
-        e0 = cel.Ev(facts, hooks=hk).apply_fn(FX + "create_initial_edges", [CUR, PAIRS], 0)
-        w = writes_of(e0) if isinstance(e0, Arr) else {}
+        # walking the quote list itself (`zip(fx_rates)`) reaches the same element as `fx_rates[i]`
+        hk2 = dict(hk, **{"@elem": lambda cont: (lambda idx: Poly.atom(("call", "index", (vkey(RATES), idx.key())))) if vkey(cont) == vkey(RATES) else hk["@elem"](cont)})
+        built = eval_builders(facts, hk2)
+    except Unsupported as e:
+        ck.fail(r4, "create_initial_edges", "rule could not be established (%s)" % e)
+    try:
+        e0 = built.get("edges")
+        w = unzip(writes_of(e0)) if isinstance(e0, Arr) else {}
         one = Poly.const(1)
         want = {((vkey(row), vkey(col)), (), (vkey(PAIRS),)): one, ((vkey(col), vkey(row)), (), (vkey(PAIRS),)): one}
         ck.check(r4, "create_initial_edges", isinstance(e0, Arr) and vkey(e0.base) == vkey(Sym("eye")) and {k: vkey(v) for k, v in w.items()} == {k: vkey(v) for k, v in want.items()},
@@ -113,16 +167,9 @@ def run(ck, facts, tier):
     except Unsupported as e:
         ck.fail(r4, "create_initial_edges", "rule could not be established (%s)" % e)
     try:
-        # walking the quote list itself (`zip(fx_rates)`) reaches the same element as `fx_rates[i]`
-        hk2 = dict(hk, **{"@elem": lambda cont: (lambda idx: Poly.atom(("call", "index", (vkey(RATES), idx.key())))) if vkey(cont) == vkey(RATES) else hk["@elem"](cont)})
-        m0 = cel.Ev(facts, hooks=hk2).apply_fn(FX + "create_initial_fx_array", [CUR, PAIRS, RATES], 0)
-        # the leading `assert_eq!(fx_pairs.len(), fx_rates.len())` may abort: the returning path is judged
-        live = [v for _, v in paths.flatten(cel.strip_early(m0)) if not (isinstance(v, Sym) and v.tag[:1] == ("diverges",))]
-        m0 = live[0] if len(live) == 1 else m0
-        w = writes_of(m0) if isinstance(m0, Arr) else {}
+        m0 = built.get("rates")
         # enumerate() + index or zip(): i0 indexes both the pair list and the quote list (their lengths are equal, asserted on entry or by the caller's construction)
-        zk = vkey(Sym("zip", vkey(PAIRS), vkey(RATES)))
-        w = {(k[0], k[1], tuple(vkey(PAIRS) if l == zk else l for l in k[2])): v for k, v in w.items()}
+        w = unzip(writes_of(m0)) if isinstance(m0, Arr) else {}
         rate_i = Poly.atom(("call", "index", (vkey(RATES), Poly.atom("i0").key())))
         want = {((vkey(row), vkey(col)), (), (vkey(PAIRS),)): rate_i, ((vkey(col), vkey(row)), (), (vkey(PAIRS),)): rate_i.inv()}
         ck.check(r2, "create_initial_fx_array", isinstance(m0, Arr) and vkey(m0.base) == vkey(Sym("eye")) and {k: vkey(v) for k, v in w.items()} == {k: vkey(v) for k, v in want.items()},
@@ -214,9 +261,12 @@ def run(ck, facts, tier):
     where = "%s:%d" % (r["file"], r["line"]) if r else None
     FILL_OK = ("if", vkey(Sym("fill-succeeds")))
     for order, variant in (("Zero", "F64"), ("One", "Dual"), ("Two", "Dual2")):
-        hk5 = dict(hk, **{FX + "create_initial_edges": lambda ev, vals, e: Arr([Poly.atom("n")] * 2, Sym("E0"), "E0"),
-                          FX + "create_initial_fx_array": lambda ev, vals, e: Arr([Poly.atom("n")] * 2, Sym("M0"), "M0"),
-                          FX + "mut_arrays_remaining_elements": lambda ev, vals, e: cel.Alt([(FILL_OK, Sym("ctor", "Ok", Sym("bool", "true"))),
+        fresh = {"edges": lambda: Arr([Poly.atom("n")] * 2, Sym("E0"), "E0"), "rates": lambda: Arr([Poly.atom("n")] * 2, Sym("M0"), "M0")}
+        bh = {}
+        for bname, _roles, kinds in init_builders(facts):
+            bh[bname] = (lambda ev, vals, e, kinds=kinds: (fresh[kinds[0]]() if len(kinds) == 1 else Tup([fresh[k_]() for k_ in kinds])))
+        hk5 = dict(hk, **bh)
+        hk5.update({FX + "mut_arrays_remaining_elements": lambda ev, vals, e: cel.Alt([(FILL_OK, Sym("ctor", "Ok", Sym("bool", "true"))),
                                                                                                      (("not", FILL_OK), Sym("ctor", "Err", Sym("fill-error")))]),
                           "dual_ops::convert::set_order_clone": lambda ev, vals, e: Sym("lifted", *[vkey(v) for v in vals])})
         try:
